@@ -140,6 +140,17 @@ CHECKS = {
          'detectors must flag the same tokens, with lines that follow them.',
     note='Together with C02 (lines = 1 + line feeds before the offset, decided for all texts up to the bound). Outside: the parser itself.',
     technique='symbolic execution of MIR with free offsets (parametricity) + native re-layout differential', design='6/C17, 7'),
+ 'C18': dict(
+    text='REDUCED CLAIM (what the OS does with a system call is outside the solver\'s reach). Decided symbolically: main() of the binary executed from its MIR over a '
+         'modelled file system with an EFFECT LOG (every read_dir / read_to_string / write call is recorded by the fs contracts; an fs call without a contract is '
+         'Unsupported, never ignored): on every path exactly one write happens, to the literal path solstat_report.md, every read is of an eligible file of the analysed '
+         'tree (once per category), and the text written is identical across all configurations of a stale report (none / in the working directory / inside the '
+         'analysed directory / working directory = analysed directory). A scan of every call statement in the crate\'s MIR (library and binary) finds no mutating '
+         'file-system or process API. Confirmed on the compiled binary: runs in scratch directories with SHA-256 digests of the whole tree before and after, '
+         'three stale-report states, both working-directory layouts.',
+    note='Trusted: std::fs::write creates or truncates exactly the named file (its documented contract); read_dir / read_to_string modify nothing. '
+         'Outside: other processes, symlinks out of the tree, signals.',
+    technique='symbolic execution of the binary\'s MIR with a file-system effect log + MIR call scan, native runs of the real binary with tree digests', design='7, 10.6'),
  'C19': dict(
     text='Every detector except the two SafeMath ones executed from MIR three times on files built from the SAME node objects: pragmas + I1 + I2, pragmas + I1, '
          'pragmas + I2 (10 kinds of top-level items: rich contract, constructor after / before functions, packable, constants, library, interface, free function, '
@@ -150,7 +161,6 @@ CHECKS = {
 }
 NOT_YET = "check not built yet (framework under construction); see DESIGN.md section 6"
 NA = {
- 'C18': 'effect of a whole process on a real file system (one fs::write; std/OS contracts) cannot be decided by a solver from solstat\'s code: DESIGN.md section 7',
 }
 
 ids = [json.loads(l)['id'] for l in open('/verif/properties.jsonl')]
